@@ -105,6 +105,7 @@ func (i *rangeAggIterator) Next(r *Step) bool {
 			Set:  s.Set,
 		})
 	}
+	sortSamples(r.Samples)
 
 	return true
 }
